@@ -217,7 +217,7 @@ func opBudget(op *Op) int64 {
 		n += int64(len(a)) + 1
 	}
 	n += int64(len(op.Data))
-	return 200_000 + 2000*n
+	return 5_000_000 + 2000*n
 }
 
 // Execute runs the scenario under one schedule. It is a pure function of
